@@ -426,6 +426,10 @@ class Context:
             out_lines.append(f"KNOWN-FINDING: property={prop} {e['id']} {e['what']}")
         seen = set()
         replay_paths = []
+        if os.path.isdir(rdir):  # replay files of earlier runs are stale
+            for n in os.listdir(rdir):
+                if n.endswith(".json"):
+                    os.unlink(os.path.join(rdir, n))
         for v in new_viol:
             d = digest(v.to_json(prop))
             if d in seen:
